@@ -4,7 +4,6 @@ from __future__ import annotations
 import re
 from collections.abc import Iterable, Sequence
 from dataclasses import dataclass
-from re import Pattern
 
 __all__ = ['ListEntry', 'ListTree']
 
@@ -84,12 +83,11 @@ class ListTree:
 
     _wildcards = re.compile(r'([\*\%])')
 
-    __slots__ = ['_delimiter', '_no_delimiter', '_root', '_marked']
+    __slots__ = ['_delimiter', '_root', '_marked']
 
     def __init__(self, delimiter: str) -> None:
         super().__init__()
         self._delimiter = delimiter
-        self._no_delimiter = '[^' + re.escape(delimiter) + ']*?'
         self._root = _TreeNode('')
         self._marked: dict[str, bool] = {}
 
@@ -191,18 +189,28 @@ class ListTree:
         for entry in self._iter(self._root, ''):
             yield entry
 
-    def _get_pattern(self, query: str) -> tuple[Pattern[str], Pattern[str]]:
-        pattern_parts: list[str] = []
-        for part in self._wildcards.split(query):
+    def _matches(self, parts: Sequence[str], name: str) -> bool:
+        # Track every offset in name where the parts so far can end, instead
+        # of a backtracking regex, so that matching is polynomial.
+        delimiter = self._delimiter
+        ends = {0}
+        for part in parts:
             if part == '*':
-                pattern_parts.append('.*?')
+                ends = set(range(min(ends), len(name) + 1))
             elif part == '%':
-                pattern_parts.append(self._no_delimiter)
+                new_ends: set[int] = set()
+                for start in ends:
+                    stop = name.find(delimiter, start)
+                    if stop < 0:
+                        stop = len(name)
+                    new_ends.update(range(start, stop + 1))
+                ends = new_ends
             else:
-                pattern_parts.append(re.escape(part))
-        pattern = '^' + ''.join(pattern_parts) + r'\Z'
-        return (re.compile(pattern, re.DOTALL),
-                re.compile(pattern, re.DOTALL | re.IGNORECASE))
+                ends = {end + len(part) for end in ends
+                        if name.startswith(part, end)}
+            if not ends:
+                return False
+        return len(name) in ends
 
     def list_matching(self, ref_name: str, filter_: str) \
             -> Iterable[ListEntry]:
@@ -213,10 +221,12 @@ class ListTree:
             filter_: Mailbox name with possible wildcards.
 
         """
-        canonical, canonical_i = self._get_pattern(ref_name + filter_)
+        parts = [part for part in self._wildcards.split(ref_name + filter_)
+                 if part]
+        parts_i = [part.upper() for part in parts]
         for entry in self.list():
             if entry.name == 'INBOX':
-                if canonical_i.match('INBOX'):
+                if self._matches(parts_i, 'INBOX'):
                     yield entry
-            elif canonical.match(entry.name):
+            elif self._matches(parts, entry.name):
                 yield entry
